@@ -1,4 +1,5 @@
 import Pxv.Model.Generate
+import Pxv.Lemmas.Manifest
 /-!
 C10 — code generation is deterministic, cache-independent and idempotent (the modelled part):
 persistence never touches a file whose bytes are already right, `--check` never writes, `--check`
@@ -249,5 +250,52 @@ example : (generate exBuildCheck .check
   decide
 example : (persistIfChanged (FS.ofList [("a", ⟨[1], 4⟩)]) "a" [1]).get "a" = some ⟨[1], 4⟩ ∧
     (persistIfChanged (FS.ofList [("a", ⟨[1], 4⟩)]) "a" [2]).get "a" = some ⟨[2], 5⟩ := by decide
+
+end Pxv.Gen
+
+/-! ### The SDK manifest: what an earlier generation left in the directory does not matter -/
+namespace Pxv.Gen
+
+/-- **History does not matter for the SDK manifest**: generating into a directory whose manifest was written by an
+    earlier generation (of anything) gives the manifest a generation on the original document gives. -/
+theorem overwrite_absorbs (g1 g2 : GenManifest) (d : Doc) : g2.overwrite (g1.overwrite d) = g2.overwrite d := by
+  unfold GenManifest.overwrite
+  simp only [setTable_eq, setIn_eq]
+  have hne : ("package" : String) ≠ "dependencies" := by decide
+  rw [kset_comm_of_present _ "dependencies" "package" (Ne.symm hne) _ _ (kset_any _ _ _)]
+  rw [kset_kset, kset_kset]
+  congr 1
+  funext o
+  cases o with
+  | none => simp [Tbl.set]
+  | some t =>
+    show Tbl.set (Tbl.set t "edition" g1.edition) "edition" g2.edition = Tbl.set t "edition" g2.edition
+    have e1 : ∀ v, Tbl.set t "edition" v = kset t "edition" (fun _ => v) := by intro v; unfold Tbl.set kset; rfl
+    have e2 : ∀ (t' : Tbl) v, Tbl.set t' "edition" v = kset t' "edition" (fun _ => v) := by intro t' v; unfold Tbl.set kset; rfl
+    rw [e2, e2, e2, kset_kset]
+
+theorem overwrite_idem (g : GenManifest) (d : Doc) : g.overwrite (g.overwrite d) = g.overwrite d :=
+  overwrite_absorbs g g d
+
+/-- the same for `persist_manifest` as a whole: whatever was generated before (`hist`), starting from no file or from
+    the user's own manifest `d0`, the manifest after generating `g` is the one a single generation gives. -/
+theorem sdkManifest_history_irrelevant (g : GenManifest) (hist : List GenManifest) (d0 : Option Doc) :
+    sdkManifest g (some (hist.foldl (fun d h => h.overwrite d) (d0.getD freshDoc))) = sdkManifest g d0 := by
+  unfold sdkManifest
+  simp only [Option.getD_some]
+  induction hist generalizing d0 with
+  | nil => rfl
+  | cons h hs ih =>
+    simp only [List.foldl_cons]
+    have := ih (some (h.overwrite (d0.getD freshDoc)))
+    simp only [Option.getD_some] at this
+    rw [this, overwrite_absorbs]
+
+/-- non-vacuity / what the theorem excludes: the in-place variant keeps a dependency that is no longer needed. -/
+example :
+    let gH : GenManifest := ⟨[("app", [1]), ("helper", [2]), ("pavex", [3])], [2024]⟩
+    let gP : GenManifest := ⟨[("app", [1]), ("pavex", [3])], [2024]⟩
+    gP.overwrite (gH.overwrite freshDoc) = gP.overwrite freshDoc ∧
+    gP.overwriteInPlace (gH.overwriteInPlace freshDoc) ≠ gP.overwriteInPlace freshDoc := by decide
 
 end Pxv.Gen
